@@ -97,6 +97,17 @@ fn remote_one<T: ?Sized>(mode: &str, addr: &str) -> String {
     format!("{} back={} schema={} {:016x}", text, same, name, h)
 }
 
+/// definitions of one schema document that mentions two handles with different type parameters
+fn remote_pair_one<T: ?Sized + 'static>() -> String {
+    let mut g = sylvia::schemars::gen::SchemaGenerator::default();
+    let _ = g.subschema_for::<Remote<'static, fx::Concrete>>();
+    let _ = g.subschema_for::<Remote<'static, T>>();
+    let _ = g.subschema_for::<Remote<'static, fx::Generic<u64>>>();
+    let mut defs: Vec<String> = g.definitions().keys().cloned().collect();
+    defs.sort();
+    format!("defs={}", defs.join(","))
+}
+
 fn remote_de_one<T: ?Sized>(json: &str) -> String {
     match from_json::<Remote<T>>(json.as_bytes()) {
         Ok(r) => format!("ok {}", to_json_string(&r.as_ref().to_string()).unwrap_or_default()),
@@ -221,6 +232,10 @@ pub fn run(op: &str, rest: &str) -> String {
             let (idx, mode, addr) = (it.next().unwrap_or(""), it.next().unwrap_or(""), it.next().unwrap_or(""));
             let addr = String::from_utf8(unhex(addr)).unwrap_or_default();
             by_type!(idx, remote_one, mode, &addr)
+        }
+        "remote-pair" => {
+            let idx = rest.trim();
+            by_type!(idx, remote_pair_one, )
         }
         "remote-de" => {
             let mut it = rest.splitn(2, ' ');
